@@ -50,8 +50,18 @@
 (*   delivered  bytes that reached the sink: sequence of maximal intervals *)
 (*              <<lo, hi>> of positions of String(), in arrival order      *)
 (*                                                                         *)
+(*   sess       the history of WriteTo calls made one after the other in   *)
+(*              one process: number of this call, whether an earlier call  *)
+(*              failed.  NextCall starts the next WriteTo (another writer, *)
+(*              the same or another module).  As written each call         *)
+(*              allocates its own fmtWriter (FreshPerCall = TRUE); FALSE   *)
+(*              models a pooled fmtWriter whose error latch survives       *)
+(*              (a plausible optimisation): TLC then reports               *)
+(*              CallStartsFresh, HealthyAfterFailure, FirstError and       *)
+(*              NoFailEqualsString violated in the second call.            *)
+(*                                                                         *)
 (* Actions: ChooseWriter (enumeration staged in Next), Fprint(sz) -- one   *)
-(* per API call, Return.  Chunk sequences are enumerated on the fly: every *)
+(* per API call, Return, NextCall.  Chunk sequences are enumerated on the fly: every *)
 (* sequence of <= MaxChunks sizes 0..MaxSize is a path; with Given # <<>>  *)
 (* the chunk sequences are the given ones (sizes of the Write calls of a   *)
 (* real module, recorded by the harness) and TLC generates one vector per  *)
@@ -91,7 +101,10 @@ CONSTANTS MaxChunks, MaxSize,     \* enumeration bounds (ignored when Given # <<
           LatchError, CountAccepted, KeepFirstError,
           Modes,                  \* subset of {"never", "whole", "prefix", "silent"}
           Pieces,                 \* set of re-chunking piece sizes, 0 = none
-          GivenFile               \* "" or the name of an NDJSON file: one array of chunk sizes per line
+          GivenFile,              \* "" or the name of an NDJSON file: one array of chunk sizes per line
+          MaxCalls,               \* length of the history: WriteTo calls made one after the other
+          LaterModes,             \* writer modes of the calls after the first (a subset of Modes)
+          FreshPerCall            \* TRUE: as written: every WriteTo allocates its own fmtWriter
 
 \* <<>> (chunk sequences are enumerated) or the sequence of given chunk sequences.  A definition,
 \* not a constant substituted in the cfg: TLC evaluates it once (a cfg substitution
@@ -196,8 +209,9 @@ FailsAtCapacityP(s, wr) ==
 
 ----------------------------------------------------------------------------
 (* The state machine *)
-VARIABLES stage, w, chunks, fw, obs, delivered
-vars == <<stage, w, chunks, fw, obs, delivered>>
+VARIABLES stage, w, chunks, fw, obs, delivered,
+          sess       \* the history: [call |-> number of this WriteTo, prevFailed |-> an earlier call failed]
+vars == <<stage, w, chunks, fw, obs, delivered, sess>>
 
 RECURSIVE SumSeq(_)
 SumSeq(s) == IF s = <<>> THEN 0 ELSE Head(s) + SumSeq(Tail(s))
@@ -210,16 +224,18 @@ NoWriter == [mode |-> "none", sticky |-> FALSE, piece |-> 0, cap |-> 0, cap0 |->
 
 Init == /\ stage = "cfg" /\ w = NoWriter /\ chunks = <<>>
         /\ fw = FwInit /\ obs = ObsInit /\ delivered = <<>>
+        /\ sess = [call |-> 1, prevFailed |-> FALSE]
 
 \* enumeration of the writer behaviours, one step (not in Init: all workers share it)
 ChooseWriter ==
   /\ stage = "cfg"
-  /\ \E src \in Sources, m \in Modes, st \in BOOLEAN, p \in Pieces : \E c \in 0..MaxTotal(src) :
+  /\ \E src \in Sources, m \in (IF sess.call = 1 THEN Modes ELSE LaterModes), st \in BOOLEAN, p \in Pieces :
+     \E c \in 0..MaxTotal(src) :
        /\ (m = "never" => ~st /\ c = 0)          \* no capacity, nothing to stick to
        /\ (m = "silent" => ~st /\ p = 0)
        /\ w' = [mode |-> m, sticky |-> st, piece |-> p, cap |-> c, cap0 |-> c, failed |-> FALSE, src |-> src]
   /\ stage' = "run"
-  /\ UNCHANGED <<chunks, fw, obs, delivered>>
+  /\ UNCHANGED <<chunks, fw, obs, delivered, sess>>
 
 Total == obs.offered             \* bytes formatted so far; Len(String()) once all prints are done
 
@@ -237,19 +253,30 @@ Fprint(sz) ==
           /\ fw' = FwStep(fw, obs.calls + 1, sz, r.acc, r.fail)     \* size += n ; err = err
           /\ obs' = ObsStep(obs, sz, r.acc, r.fail, r.writes)
           /\ delivered' = AddInterval(delivered, Total + 1, Total + r.acc)
-  /\ UNCHANGED stage
+  /\ UNCHANGED <<stage, sess>>
 
 \* return fw.size, fw.err
 Return ==
   /\ stage = "run"
   /\ (~Enumerating => Len(chunks) = Len(GivenSeq(w.src)))
   /\ stage' = "done"
-  /\ UNCHANGED <<w, chunks, fw, obs, delivered>>
+  /\ UNCHANGED <<w, chunks, fw, obs, delivered, sess>>
+
+\* The next WriteTo of the history: another writer, the same or another module (chunk sequence).
+\* As written every call does fw := &fmtWriter{w: w}.  FreshPerCall = FALSE is a pooled fmtWriter
+\* whose size is reset but whose error latch is not: the latch of an earlier call (the error value
+\* of ANOTHER writer, -1) is still set when the next call starts.
+NextCall ==
+  /\ stage = "done" /\ sess.call < MaxCalls
+  /\ stage' = "cfg" /\ w' = NoWriter /\ chunks' = <<>> /\ obs' = ObsInit /\ delivered' = <<>>
+  /\ fw' = IF FreshPerCall THEN FwInit ELSE [n |-> 0, err |-> IF fw.err = 0 THEN 0 ELSE -1]
+  /\ sess' = [call |-> sess.call + 1, prevFailed |-> sess.prevFailed \/ obs.failedAt # 0]
 
 Sizes == IF Enumerating THEN 0..MaxSize
          ELSE IF Len(chunks) < Len(GivenSeq(w.src)) THEN {GivenSeq(w.src)[Len(chunks) + 1]} ELSE {}
 Next == \/ ChooseWriter
         \/ Return
+        \/ NextCall
         \/ /\ stage = "run"
            /\ (Enumerating \/ Len(chunks) < Len(GivenSeq(w.src)))
            /\ \E sz \in Sizes : Fprint(sz)
@@ -262,7 +289,8 @@ Done == stage = "done"
 Honest == w.mode # "silent"     \* the writer obeys the io.Writer contract
 
 TypeOK == /\ stage \in {"cfg", "run", "done"}
-          /\ fw.n \in Nat /\ fw.err \in Nat /\ obs.calls <= Len(chunks)
+          /\ fw.n \in Nat /\ fw.err \in Int /\ fw.err >= -1 /\ obs.calls <= Len(chunks)
+          /\ sess.call \in 1..MaxCalls
           /\ obs.failedAt <= obs.calls
 
 \* invariants at every step (the count is exact all along, not only at the end)
@@ -278,14 +306,22 @@ StringNeverPanics   == Done /\ w.mode = "never" => fw.err = 0 /\ fw.n = Total
 \* with a contract-violating writer only the count and the (nil) error are still right
 SilentStillCounts   == Done /\ w.mode = "silent" => CountExactP(Summary) /\ fw.err = 0
 
+\* Histories: a call behaves like a first call whatever happened before it.  All invariants above
+\* are evaluated per call (obs and delivered restart), so they already state it; the two below
+\* name the history effect.  Both are VIOLATED with FreshPerCall = FALSE.
+CallStartsFresh     == stage = "run" /\ chunks = <<>> => fw = FwInit
+HealthyAfterFailure == Done /\ Honest /\ sess.prevFailed /\ obs.failedAt = 0
+                         => fw.err = 0 /\ fw.n = Total /\ DeliveredLen(delivered) = Total /\ obs.calls = Len(chunks)
+
 \* vacuity guards (must be VIOLATED): failures and successes both occur
 NeverFails   == ~(Done /\ obs.failedAt # 0)
 AlwaysFails  == ~(Done /\ obs.failedAt = 0 /\ Total > 0)
 NeverSkips   == ~(Done /\ obs.calls < Len(chunks))
+NoHistory    == ~(Done /\ sess.call > 1 /\ sess.prevFailed /\ obs.failedAt = 0 /\ Total > 0)
 
 ----------------------------------------------------------------------------
 (* Generator: one vector per (chunk sequence, writer behaviour) at "done" *)
 Vector == <<"VEC", w.src, w.mode, w.sticky, w.piece, w.cap0,
-            fw.n, fw.err, obs.calls, DeliveredLen(delivered), obs.sinkWrites>>
+            fw.n, fw.err, obs.calls, DeliveredLen(delivered), obs.sinkWrites, sess.call, sess.prevFailed>>
 EmitVector == Done => PrintT(Vector)
 =============================================================================
